@@ -1,8 +1,9 @@
 (* Line.v — shape.GetExtendedSpatialIdsOnLine / GetSpatialIdsOnLine (shape/line.go): the recursive midpoint subdivision.
    Part A: abstract model over `vox_top, vox_in : P -> eid`, `mid`, `small`, replicating the control flow of middleSpatialIds
            (fuel 64, None on exhaustion; the four branches; the wrap-around face-adjacency test through the Shift model),
-           and the theorems that hold for EVERY oracle: NoDup, both end voxels present, single voxel, every emitted voxel is the
-           voxel of a dyadic interpolation point, chain theorem (A1 + endpoint stability => connected under 26-adjacency).
+           and the theorems that hold for EVERY oracle (whenever the run returns): NoDup, both end voxels present, single voxel,
+           every emitted voxel is the re-stored voxel of the `mid` of a halving piece, chain theorem (A1 + A2 + endpoint
+           stability => connected), and the same with A1/A2 CHECKED at the visited nodes instead of assumed.
    Part B: executable instance on float triples (midpoint, thresholds, x, f, SetLat bit-exact with primitive floats; the latitude
            row through the math oracle exactly as PointF.y_f), `line_api` = the ID set the Go code returns.
    Real-analysis side conditions (A1 per axis) are in LineA1.v. *)
@@ -106,6 +107,21 @@ Proof.
   split; [exact E1|]. split; [exact E2|]. split; [now apply cyc_plain|]. split; [now apply cyc_plain|exact F].
 Qed.
 
+(* adjacency used for the chain on the globe: plain 26-adjacency (no wrap-around), except that the voxel of an end point with
+   longitude exactly 180 — which the code folds onto column 0 — also touches the last column (x = 2^h - 1), as it does on the
+   globe. `folds` = the voxels of such end points. *)
+Definition unfold_x (a : eid) : eid := {| eh := eh a; ex := ex a + 2 ^ eh a; ey := ey a; ev := ev a; ef := ef a |}.
+Definition adjF (folds : list eid) (a b : eid) : Prop :=
+  adjP a b \/ (In a folds /\ adjP (unfold_x a) b) \/ (In b folds /\ adjP a (unfold_x b)).
+Definition adjFb (folds : list eid) (a b : eid) : bool :=
+  adjPb a b || (memb eid_eqb a folds && adjPb (unfold_x a) b) || (memb eid_eqb b folds && adjPb a (unfold_x b)).
+Lemma adjFb_spec folds a b : adjFb folds a b = true <-> adjF folds a b.
+Proof.
+  unfold adjFb, adjF. rewrite !orb_true_iff, !andb_true_iff, !adjPb_spec, !(memb_In eid_eqb eid_eqb_spec). tauto.
+Qed.
+Lemma adjF_nil a b : adjF [] a b <-> adjP a b.
+Proof. unfold adjF. cbn. tauto. Qed.
+
 (* a chain: consecutive elements touch *)
 Fixpoint chain (adj : eid -> eid -> Prop) (a : eid) (l : list eid) (b : eid) : Prop :=
   match l with
@@ -187,37 +203,102 @@ Section Line.
     if eid_eqb a b then Some [a]
     else option_map (fun l => nodupb eid_eqb (a :: b :: l)) (mids fuel s e).
 
-  (* the same recursion with the end voxels passed down instead of recomputed (each costs three oracle queries in the
-     executable instance) and the recursion depth recorded with every emitted voxel (fuel high-water mark) *)
-  Fixpoint midsX (fuel : nat) (d : Z) (s : P) (vs : eid) (e : P) (ve : eid) : option (list (eid * Z)) :=
+  (* ---- the recursion instrumented with the side conditions of the chain theorem, evaluated at every node it visits ----
+     adjb = the notion of touching that is checked. A node (s, e) is fine when
+       A1: if it stops below the thresholds, start, midpoint and end voxels touch pairwise along the segment;
+       A2: if the code's (wrapping) face-neighbour test accepts the midpoint's voxel next to an end voxel, the two touch. *)
+  Section Instr.
+  Variable adjb : eid -> eid -> bool.
+  Definition node_ok (s e : P) : bool :=
+    let vm := vox_in (mid s e) in
+    if small s e then adjb (vox_in s) vm && adjb vm (vox_in e)
+    else implb (near (vox_in s) vm) (adjb (vox_in s) vm) && implb (near (vox_in e) vm) (adjb vm (vox_in e)).
+  (* Some true: every node visited by `mids fuel s e` is fine *)
+  Fixpoint mids_ok (fuel : nat) (s e : P) : option bool :=
     match fuel with
     | O => None
     | S n =>
       let m := mid s e in
       let vm := vox_in m in
-      if small s e then Some [(vm, d)]
-      else if near vs vm && near ve vm then Some [(vm, d)]
-      else if near vs vm then option_map (cons (vm, d)) (midsX n (d + 1) m vm e ve)
-      else if near ve vm then option_map (cons (vm, d)) (midsX n (d + 1) s vs m vm)
-      else match midsX n (d + 1) s vs m vm, midsX n (d + 1) m vm e ve with
-           | Some a, Some b => Some ((vm, d) :: a ++ b)
+      let k := node_ok s e in
+      if small s e then Some k
+      else if near (vox_in s) vm && near (vox_in e) vm then Some k
+      else if near (vox_in s) vm then option_map (andb k) (mids_ok n m e)
+      else if near (vox_in e) vm then option_map (andb k) (mids_ok n s m)
+      else match mids_ok n s m, mids_ok n m e with
+           | Some a, Some b => Some (k && (a && b))
            | _, _ => None
            end
     end.
-  Lemma midsX_mids fuel : forall d s e,
-    option_map (map fst) (midsX fuel d s (vox_in s) e (vox_in e)) = mids fuel s e.
+
+  (* executed form: the end voxels are passed down instead of recomputed (each costs three oracle queries in the executable
+     instance), the recursion depth is recorded with every emitted voxel (fuel high-water mark), and the node checks are
+     accumulated *)
+  Definition node_okX (s : P) (vs : eid) (e : P) (ve vm : eid) : bool :=
+    if small s e then adjb vs vm && adjb vm ve
+    else implb (near vs vm) (adjb vs vm) && implb (near ve vm) (adjb vm ve).
+  Fixpoint midsX (fuel : nat) (d : Z) (s : P) (vs : eid) (e : P) (ve : eid) : option (list (eid * Z) * bool) :=
+    match fuel with
+    | O => None
+    | S n =>
+      let m := mid s e in
+      let vm := vox_in m in
+      let k := node_okX s vs e ve vm in
+      if small s e then Some ([(vm, d)], k)
+      else if near vs vm && near ve vm then Some ([(vm, d)], k)
+      else if near vs vm then
+        match midsX n (d + 1) m vm e ve with Some (r, kr) => Some ((vm, d) :: r, k && kr) | None => None end
+      else if near ve vm then
+        match midsX n (d + 1) s vs m vm with Some (r, kr) => Some ((vm, d) :: r, k && kr) | None => None end
+      else match midsX n (d + 1) s vs m vm, midsX n (d + 1) m vm e ve with
+           | Some (a, ka), Some (b, kb) => Some ((vm, d) :: a ++ b, k && (ka && kb))
+           | _, _ => None
+           end
+    end.
+  Lemma midsX_spec fuel : forall d s e,
+    option_map (fun r => (map fst (fst r), snd r)) (midsX fuel d s (vox_in s) e (vox_in e)) =
+    match mids fuel s e, mids_ok fuel s e with Some l, Some k => Some (l, k) | _, _ => None end.
   Proof.
-    induction fuel as [|n IH]; intros d s e; cbn [midsX mids]; [reflexivity|].
-    set (m := mid s e). set (vm := vox_in m).
+    induction fuel as [|n IH]; intros d s e; cbn [midsX mids mids_ok]; [reflexivity|].
+    change (node_okX s (vox_in s) e (vox_in e) (vox_in (mid s e))) with (node_ok s e).
+    set (m := mid s e). set (vm := vox_in m). set (k := node_ok s e).
     destruct (small s e); [reflexivity|].
     destruct (near (vox_in s) vm); destruct (near (vox_in e) vm); cbn [andb]; try reflexivity.
-    - rewrite <- (IH (d + 1) m e). fold vm. destruct (midsX n (d + 1) m vm e (vox_in e)); reflexivity.
-    - rewrite <- (IH (d + 1) s m). fold vm. destruct (midsX n (d + 1) s (vox_in s) m vm); reflexivity.
-    - rewrite <- (IH (d + 1) s m), <- (IH (d + 1) m e). fold vm.
-      destruct (midsX n (d + 1) s (vox_in s) m vm); [|reflexivity].
-      destruct (midsX n (d + 1) m vm e (vox_in e)); [|reflexivity].
-      cbn. now rewrite map_app.
+    - specialize (IH (d + 1) m e). fold vm in IH.
+      destruct (midsX n (d + 1) m vm e (vox_in e)) as [[r kr]|]; cbn [option_map fst snd] in IH;
+        destruct (mids n m e); destruct (mids_ok n m e); try discriminate; cbn [option_map fst snd map]; try reflexivity.
+      injection IH as <- <-. reflexivity.
+    - specialize (IH (d + 1) s m). fold vm in IH.
+      destruct (midsX n (d + 1) s (vox_in s) m vm) as [[r kr]|]; cbn [option_map fst snd] in IH;
+        destruct (mids n s m); destruct (mids_ok n s m); try discriminate; cbn [option_map fst snd map]; try reflexivity.
+      injection IH as <- <-. reflexivity.
+    - pose proof (IH (d + 1) s m) as I1. pose proof (IH (d + 1) m e) as I2. fold vm in I1, I2.
+      destruct (midsX n (d + 1) s (vox_in s) m vm) as [[ra ka]|]; cbn [option_map fst snd] in I1;
+        destruct (mids n s m); destruct (mids_ok n s m); try discriminate; cbn [option_map fst snd map]; try reflexivity;
+      destruct (midsX n (d + 1) m vm e (vox_in e)) as [[rb kb]|]; cbn [option_map fst snd] in I2;
+        destruct (mids n m e); destruct (mids_ok n m e); try discriminate; cbn [option_map fst snd map]; try reflexivity.
+      injection I1 as <- <-. injection I2 as <- <-. now rewrite map_app.
   Qed.
+
+  Lemma mids_ok_None fuel : forall s e, mids_ok fuel s e = None <-> mids fuel s e = None.
+  Proof.
+    induction fuel as [|n IH]; intros s e; cbn [mids mids_ok]; [tauto|].
+    set (m := mid s e). set (vm := vox_in m).
+    destruct (small s e); [split; discriminate|].
+    destruct (near (vox_in s) vm && near (vox_in e) vm); [split; discriminate|].
+    destruct (near (vox_in s) vm).
+    { specialize (IH m e). destruct (mids_ok n m e); destruct (mids n m e); cbn; split; try discriminate; try reflexivity;
+        intros _; exfalso; destruct IH as [I1 I2]; (discriminate (I1 eq_refl) || discriminate (I2 eq_refl)). }
+    destruct (near (vox_in e) vm).
+    { specialize (IH s m). destruct (mids_ok n s m); destruct (mids n s m); cbn; split; try discriminate; try reflexivity;
+        intros _; exfalso; destruct IH as [I1 I2]; (discriminate (I1 eq_refl) || discriminate (I2 eq_refl)). }
+    pose proof (IH s m) as [A1 A2]. pose proof (IH m e) as [B1 B2].
+    destruct (mids_ok n s m); destruct (mids n s m); destruct (mids_ok n m e); destruct (mids n m e);
+      split; try discriminate; try reflexivity; intros _; exfalso;
+      (discriminate (A1 eq_refl) || discriminate (A2 eq_refl) || discriminate (B1 eq_refl) || discriminate (B2 eq_refl)).
+  Qed.
+
+  End Instr.
 
   (* ---- what holds for every oracle ---- *)
   Theorem line_NoDup fuel s e l : line_ids fuel s e = Some l -> NoDup l.
@@ -338,6 +419,73 @@ Section Line.
     Qed.
   End Chain.
 
+  (* ---- chain theorem with CHECKED side conditions: no hypothesis about points other than those the run visits ---- *)
+  Section Checked.
+    Variable adjb : eid -> eid -> bool.
+    Variable adj : eid -> eid -> Prop.
+    Hypothesis adjb_adj : forall a b, adjb a b = true -> adj a b.
+    Theorem mids_checked_chain fuel : forall s e l, mids fuel s e = Some l -> mids_ok adjb fuel s e = Some true ->
+      exists c, chain adj (vox_in s) c (vox_in e) /\ (forall v, In v c <-> In v l).
+    Proof.
+      induction fuel as [|n IH]; intros s e l; cbn [mids mids_ok]; [discriminate|].
+      unfold node_ok. set (m := mid s e). set (vm := vox_in m).
+      destruct (small s e) eqn:Hs.
+      - intros [= <-] [= K]. apply andb_true_iff in K. destruct K as [K1 K2].
+        exists [vm]. split; [|tauto]. cbn. split; now apply adjb_adj.
+      - destruct (near (vox_in s) vm) eqn:Ns; destruct (near (vox_in e) vm) eqn:Ne; cbn [andb implb].
+        + intros [= <-] [= K]. apply andb_true_iff in K. destruct K as [K1 K2].
+          exists [vm]. split; [|tauto]. cbn. split; now apply adjb_adj.
+        + destruct (mids n m e) as [r|] eqn:Hr; [|discriminate]. intros [= <-].
+          destruct (mids_ok adjb n m e) as [kr|] eqn:Hk; [|discriminate]. intros [= K].
+          rewrite andb_true_r in K. apply andb_true_iff in K. destruct K as [K1 ->].
+          destruct (IH _ _ _ Hr Hk) as (c & Hc & Hin).
+          exists (vm :: c). split.
+          * cbn. split; [now apply adjb_adj | exact Hc].
+          * intros v. cbn. rewrite Hin. tauto.
+        + destruct (mids n s m) as [r|] eqn:Hr; [|discriminate]. intros [= <-].
+          destruct (mids_ok adjb n s m) as [kr|] eqn:Hk; [|discriminate]. intros [= K].
+          cbn [andb] in K. apply andb_true_iff in K. destruct K as [K1 ->].
+          destruct (IH _ _ _ Hr Hk) as (c & Hc & Hin).
+          exists (c ++ [vm]). split.
+          * apply chain_snoc; [exact Hc|]. now apply adjb_adj.
+          * intros v. rewrite in_app_iff. cbn. rewrite Hin. tauto.
+        + destruct (mids n s m) as [a|] eqn:Ha; [|discriminate].
+          destruct (mids n m e) as [b|] eqn:Hb; [|discriminate]. intros [= <-].
+          destruct (mids_ok adjb n s m) as [ka|] eqn:Hka; [|discriminate].
+          destruct (mids_ok adjb n m e) as [kb|] eqn:Hkb; [|discriminate]. intros [= K].
+          cbn [andb] in K. apply andb_true_iff in K. destruct K as [-> ->].
+          destruct (IH _ _ _ Ha Hka) as (ca & Hca & Hina).
+          destruct (IH _ _ _ Hb Hkb) as (cb & Hcb & Hinb).
+          exists (ca ++ vm :: cb). split.
+          * apply chain_app; assumption.
+          * intros v. rewrite in_app_iff. cbn. rewrite in_app_iff, Hina, Hinb. tauto.
+    Qed.
+    (* if both end points are stable and every node of the run passed its check, every returned voxel is reachable from the
+       start voxel through touching returned voxels *)
+    Theorem line_checked_connected fuel s e l : stable s -> stable e -> line_ids fuel s e = Some l ->
+      vox_top s = vox_top e \/ mids_ok adjb fuel s e = Some true ->
+      forall v, In v l -> reach adj l (vox_top s) v.
+    Proof.
+      intros Ss Se Hl Hok. pose proof (line_ends _ _ _ _ Hl) as [Ia Ib].
+      pose proof (line_members _ _ _ _ Hl) as Hm.
+      assert (R0 : reach adj l (vox_top s) (vox_top s)) by now apply reach0.
+      intros v Hv. apply Hm in Hv. destruct Hv as [->|Hv]; [exact R0|].
+      destruct (eid_eqb_spec (vox_top s) (vox_top e)) as [E|N].
+      { destruct Hv as [->|(N & _)]; [rewrite <- E; exact R0|congruence]. }
+      destruct Hok as [E|Hok]; [congruence|].
+      assert (Hr : exists r, mids fuel s e = Some r /\ (v = vox_top e \/ In v r)).
+      { destruct Hv as [->|(_ & r & Hr & Hv)]; [|exists r; auto].
+        unfold line_ids in Hl. destruct (eid_eqb_spec (vox_top s) (vox_top e)) as [E|_]; [congruence|].
+        destruct (mids fuel s e) as [r|]; [|discriminate]. exists r. auto. }
+      destruct Hr as (r & Hr & Hvr).
+      destruct (mids_checked_chain _ _ _ _ Hr Hok) as (c & Hc & Hin). unfold stable in Ss, Se. rewrite Ss, Se in Hc.
+      apply (chain_reach adj l (vox_top s) c (vox_top s) (vox_top e) R0 Hc).
+      - intros z Hz. apply Hm. right; right. split; [exact N|]. exists r. split; [exact Hr|now apply Hin].
+      - exact Ib.
+      - apply in_or_app. destruct Hvr as [->|Hvr]; [right; now left|left; now apply Hin].
+    Qed.
+  End Checked.
+
   (* instance 1 — touching as the code's own neighbour test sees it (x and y modulo 2^h): A2 holds for every oracle *)
   Section ChainTorus.
     Variable h : Z.
@@ -413,36 +561,65 @@ Section Exec.
 
   Definition line_ids_pt (s e : point) : option (list eid) :=
     line_ids point vox_top_pt vox_in_pt mid_pt (small_pt (thresholds h v)) line_fuel s e.
-  (* executed form: end voxels passed down, depth recorded; returns the IDs and the deepest recursion level reached *)
-  Definition line_run (s e : point) : option (list eid * Z) :=
+  (* voxels of end points with longitude exactly 180 (folded onto column 0) *)
+  Definition folds_pt (s e : point) : list eid :=
+    (if plon s =? 180 then [vox_top_pt s] else []) ++ (if plon e =? 180 then [vox_top_pt e] else []).
+  (* executed form: end voxels passed down, depth recorded, node checks (A1/A2 for the fold-aware plain adjacency) accumulated;
+     returns the IDs, the deepest recursion level reached and whether every visited node passed its check *)
+  Definition line_run (s e : point) : option (list eid * Z * bool) :=
     let a := vox_top_pt s in
     let b := vox_top_pt e in
-    if eid_eqb a b then Some ([a], 0%Z)
-    else match midsX point vox_in_pt mid_pt (small_pt (thresholds h v)) line_fuel 1 s (vox_in_pt s) e (vox_in_pt e) with
-         | Some l => Some (nodupb eid_eqb (a :: b :: map fst l), fold_left Z.max (map snd l) 0%Z)
+    if eid_eqb a b then Some ([a], 0%Z, true)
+    else match midsX point vox_in_pt mid_pt (small_pt (thresholds h v)) (adjFb (folds_pt s e)) line_fuel 1
+                     s (vox_in_pt s) e (vox_in_pt e) with
+         | Some (l, k) => Some (nodupb eid_eqb (a :: b :: map fst l), fold_left Z.max (map snd l) 0%Z, k)
          | None => None
          end.
-  Lemma line_run_ids s e : option_map fst (line_run s e) = line_ids_pt s e.
+  Lemma line_run_ids s e : option_map (fun r => fst (fst r)) (line_run s e) = line_ids_pt s e.
   Proof.
     unfold line_run, line_ids_pt, line_ids.
     destruct (eid_eqb (vox_top_pt s) (vox_top_pt e)); [reflexivity|].
-    rewrite <- (midsX_mids point vox_in_pt mid_pt (small_pt (thresholds h v)) line_fuel 1 s e).
-    destruct (midsX point vox_in_pt mid_pt (small_pt (thresholds h v)) line_fuel 1 s (vox_in_pt s) e (vox_in_pt e)); reflexivity.
+    pose proof (midsX_spec point vox_in_pt mid_pt (small_pt (thresholds h v)) (adjFb (folds_pt s e)) line_fuel 1 s e) as H.
+    pose proof (mids_ok_None point vox_top_pt vox_in_pt mid_pt (small_pt (thresholds h v)) (adjFb (folds_pt s e)) line_fuel s e) as [N1 N2].
+    destruct (midsX point vox_in_pt mid_pt (small_pt (thresholds h v)) (adjFb (folds_pt s e)) line_fuel 1 s (vox_in_pt s) e (vox_in_pt e))
+      as [[l k]|]; cbn [option_map fst snd] in H |- *.
+    - destruct (mids point vox_in_pt mid_pt (small_pt (thresholds h v)) line_fuel s e); [|discriminate].
+      destruct (mids_ok point vox_in_pt mid_pt (small_pt (thresholds h v)) (adjFb (folds_pt s e)) line_fuel s e); [|discriminate].
+      injection H as <- _. reflexivity.
+    - destruct (mids point vox_in_pt mid_pt (small_pt (thresholds h v)) line_fuel s e) as [r|]; [|reflexivity].
+      destruct (mids_ok point vox_in_pt mid_pt (small_pt (thresholds h v)) (adjFb (folds_pt s e)) line_fuel s e); [discriminate|].
+      discriminate (N1 eq_refl).
+  Qed.
+  (* the flag of the executed form is the instrumented run's verdict *)
+  Lemma line_run_flag s e l d : line_run s e = Some (l, d, true) ->
+    vox_top_pt s = vox_top_pt e \/
+    mids_ok point vox_in_pt mid_pt (small_pt (thresholds h v)) (adjFb (folds_pt s e)) line_fuel s e = Some true.
+  Proof.
+    unfold line_run. destruct (eid_eqb_spec (vox_top_pt s) (vox_top_pt e)) as [E|N]; [intros _; now left|].
+    intros Hrun. right. revert Hrun.
+    pose proof (midsX_spec point vox_in_pt mid_pt (small_pt (thresholds h v)) (adjFb (folds_pt s e)) line_fuel 1 s e) as H.
+    destruct (midsX point vox_in_pt mid_pt (small_pt (thresholds h v)) (adjFb (folds_pt s e)) line_fuel 1 s (vox_in_pt s) e (vox_in_pt e))
+      as [[lx k]|]; [|discriminate]. cbn [option_map fst snd] in H. intros [= _ _ ->].
+    destruct (mids point vox_in_pt mid_pt (small_pt (thresholds h v)) line_fuel s e); [|discriminate].
+    destruct (mids_ok point vox_in_pt mid_pt (small_pt (thresholds h v)) (adjFb (folds_pt s e)) line_fuel s e); [|discriminate].
+    injection H as _ <-. reflexivity.
   Qed.
 End Exec.
 
 (* shape.GetExtendedSpatialIdsOnLine: nil check, zoom check (through GetExtendedSpatialIdsOnPoints), then the line.
-   `has_nil` = one of the two pointers is nil. Fuel exhaustion is never a normal-looking value: Err (never observed). *)
+   `has_nil` = one of the two pointers is nil. Fuel exhaustion is never a normal-looking value: Err. (The Go code has no fuel: where
+   the model runs out of fuel — end points one ulp apart in voxels two or more apart, e.g. altitude >= 2^43 at v = 35 — the code
+   recurses until the stack overflows; such inputs are outside the domain judged at run time, see meta/C06.json.) *)
 Definition line_api_run (m_tan m_cos m_log : float -> float) (has_nil : bool) (s e : point) (h v : Z)
-  : result (list string) * Z :=
-  if has_nil then (Err, 0%Z)
-  else if negb (check_zoom h && check_zoom v) then (Err, 0%Z)
+  : result (list string) * Z * bool :=
+  if has_nil then (Err, 0%Z, true)
+  else if negb (check_zoom h && check_zoom v) then (Err, 0%Z, true)
   else match line_run m_tan m_cos m_log h v s e with
-       | Some (l, d) => (Ok (map print_eid l), d)
-       | None => (Err, Z.of_nat line_fuel)
+       | Some (l, d, k) => (Ok (map print_eid l), d, k)
+       | None => (Err, Z.of_nat line_fuel, false)
        end.
 Definition line_api m_tan m_cos m_log has_nil s e h v : result (list string) :=
-  fst (line_api_run m_tan m_cos m_log has_nil s e h v).
+  fst (fst (line_api_run m_tan m_cos m_log has_nil s e h v)).
 (* shape.GetSpatialIdsOnLine: the same with h = v = zoom, then ConvertExtendedSpatialIdsToSpatialIds *)
 Definition line_sid_api m_tan m_cos m_log has_nil s e (z : Z) : result (list string) :=
   match line_api m_tan m_cos m_log has_nil s e z z with
@@ -456,7 +633,7 @@ Lemma line_api_model m_tan m_cos m_log s e h v : check_zoom h = true -> check_zo
   match line_ids_pt m_tan m_cos m_log h v s e with Some l => Ok (map print_eid l) | None => Err end.
 Proof.
   intros Hh Hv. unfold line_api, line_api_run. rewrite Hh, Hv. cbn [andb negb].
-  rewrite <- line_run_ids. destruct (line_run m_tan m_cos m_log h v s e) as [[l d]|]; reflexivity.
+  rewrite <- line_run_ids. destruct (line_run m_tan m_cos m_log h v s e) as [[[l d] k]|]; reflexivity.
 Qed.
 Lemma line_api_errors m_tan m_cos m_log has_nil s e h v :
   has_nil = true \/ check_zoom h = false \/ check_zoom v = false -> line_api m_tan m_cos m_log has_nil s e h v = Err.
@@ -470,8 +647,8 @@ Qed.
 (* ------------------------------------------------------------------------------------------------------------------ *)
 (* For any coordinate c on which `mid` is the exact midpoint, the k-th of the 2^n pieces (a, b) of (s, e) has
    c a = c s + k/2^n (c e - c s) and c b = c s + (k+1)/2^n (c e - c s): with mids_sub, every emitted voxel is the voxel of
-   the interpolation point of parameter (2k+1)/2^(n+1) — the same parameter on all three axes. (The float midpoint is the
-   exact one up to rounding; that gap is covered by the tolerance of the run-time slab test.) *)
+   the interpolation point of parameter (2k+1)/2^(n+1) — the same parameter on all three axes. IDEAL midpoints only: the float
+   midpoint mid_pt does not satisfy c_mid on any coordinate (rounding), so this section is never instantiated for the float model. *)
 From Coq Require Import QArith.
 Close Scope Q_scope.
 Section Dyadic.
@@ -533,47 +710,40 @@ Proof.
   destruct (eid_eqb_spec (vox_in_pt m_tan m_cos m_log h v p) (vox_top_pt m_tan m_cos m_log h v p)); split; congruence.
 Qed.
 
-(* A1 and A2 for the executable instance, for plain 26-adjacency (no wrap): statements about the float code.
-   A1: below the thresholds start, midpoint and end voxels touch (proved at the real level in LineA1.v, margins >= 1.45x);
-   A2: when the midpoint's voxel is a face neighbour of an end voxel in the code's wrapping test, it is a plain neighbour
-       (the midpoint of two points of the map never lies in the column/row opposite to an end point's when h >= 2).
-   Both are validated on every run by the plain-adjacency connectivity check of the observed ID set. *)
-Definition A1_pt (m_tan m_cos m_log : float -> float) (h v : Z) : Prop :=
-  forall a b, small_pt (thresholds h v) a b = true ->
-    adjP (vox_in_pt m_tan m_cos m_log h v a) (vox_in_pt m_tan m_cos m_log h v (mid_pt a b)) /\
-    adjP (vox_in_pt m_tan m_cos m_log h v (mid_pt a b)) (vox_in_pt m_tan m_cos m_log h v b).
-Definition A2_pt (m_tan m_cos m_log : float -> float) (h v : Z) : Prop :=
-  forall a b,
-    (near (vox_in_pt m_tan m_cos m_log h v a) (vox_in_pt m_tan m_cos m_log h v (mid_pt a b)) = true ->
-     adjP (vox_in_pt m_tan m_cos m_log h v a) (vox_in_pt m_tan m_cos m_log h v (mid_pt a b))) /\
-    (near (vox_in_pt m_tan m_cos m_log h v b) (vox_in_pt m_tan m_cos m_log h v (mid_pt a b)) = true ->
-     adjP (vox_in_pt m_tan m_cos m_log h v (mid_pt a b)) (vox_in_pt m_tan m_cos m_log h v b)).
+(* PARTIAL theorem of C06 for the float model, for every oracle: if the instrumented run reports that every node it visited
+   passed its A1/A2 check (a decidable fact about this run, reported by every harness case) and no end point is in the finding
+   class, the returned set is one chain, connected under plain 26-adjacency (end points at longitude 180 folded), containing
+   both end voxels. Partial: that the checks pass is observed per run, not proved for all inputs (LineA1.v proves A1 for the exact
+   real-number index functions only). *)
+Theorem line_pt_checked_connected m_tan m_cos m_log h v s e l d :
+  line_run m_tan m_cos m_log h v s e = Some (l, d, true) ->
+  unstable_endpoint m_tan m_cos m_log h v s = false -> unstable_endpoint m_tan m_cos m_log h v e = false ->
+  forall i, In i l -> reach (adjF (folds_pt m_tan m_cos m_log h v s e)) l (vox_top_pt m_tan m_cos m_log h v s) i.
+Proof.
+  intros Hrun Us Ue. apply unstable_endpoint_false in Us, Ue.
+  pose proof (line_run_flag _ _ _ _ _ _ _ _ _ Hrun) as Hflag.
+  pose proof (line_run_ids m_tan m_cos m_log h v s e) as Hids. rewrite Hrun in Hids. cbn [option_map fst] in Hids. symmetry in Hids.
+  refine (line_checked_connected point _ _ _ _ (adjFb (folds_pt m_tan m_cos m_log h v s e))
+            (adjF (folds_pt m_tan m_cos m_log h v s e)) _ line_fuel s e l Us Ue Hids Hflag).
+  intros a b. apply adjFb_spec.
+Qed.
 
-(* PARTIAL theorem of C06 for the float model, for every oracle: outside the finding class and under A1, A2 the returned set
-   is one chain, connected under plain 26-adjacency, containing both end voxels. *)
-Theorem line_pt_connected_partial m_tan m_cos m_log h v s e l :
-  A1_pt m_tan m_cos m_log h v -> A2_pt m_tan m_cos m_log h v ->
-  unstable_endpoint m_tan m_cos m_log h v s = false -> unstable_endpoint m_tan m_cos m_log h v e = false ->
-  line_ids_pt m_tan m_cos m_log h v s e = Some l ->
-  forall i, In i l -> reach adjP l (vox_top_pt m_tan m_cos m_log h v s) i.
-Proof.
-  intros HA1 HA2 Us Ue Hl. apply unstable_endpoint_false in Us, Ue.
-  refine (line_connected point _ _ _ _ adjP _ _ HA1 line_fuel s e l Us Ue Hl).
-  - intros a b. apply (HA2 a b).
-  - intros a b. apply (HA2 a b).
-Qed.
-(* with the code's own (wrapping) notion of touching no A2 is needed *)
-Theorem line_pt_connected_torus_partial m_tan m_cos m_log h v s e l : (0 <= h)%Z ->
-  (forall a b, small_pt (thresholds h v) a b = true ->
-     adj26 (vox_in_pt m_tan m_cos m_log h v a) (vox_in_pt m_tan m_cos m_log h v (mid_pt a b)) /\
-     adj26 (vox_in_pt m_tan m_cos m_log h v (mid_pt a b)) (vox_in_pt m_tan m_cos m_log h v b)) ->
-  unstable_endpoint m_tan m_cos m_log h v s = false -> unstable_endpoint m_tan m_cos m_log h v e = false ->
-  line_ids_pt m_tan m_cos m_log h v s e = Some l ->
-  forall i, In i l -> reach adj26 l (vox_top_pt m_tan m_cos m_log h v s) i.
-Proof.
-  intros Hh HA Us Ue Hl. apply unstable_endpoint_false in Us, Ue.
-  exact (line_connected_torus point _ _ _ _ h Hh (vox_in_pt_h m_tan m_cos m_log h v) HA line_fuel s e l Us Ue Hl).
-Qed.
+(* non-vacuity: two real segments along the equator (latitude 0: Go's math.Tan(0) = 0, math.Cos(0) = 1, math.Log(1) = 0 are the
+   only oracle answers needed; every other argument: NaN). The second one ends at longitude 180 exactly (fold). *)
+Definition eq_tan (r : float) : float := if r =? 0 then 0 else nan.
+Definition eq_cos (r : float) : float := if r =? 0 then 1 else nan.
+Definition eq_log (a : float) : float := if a =? 1 then 0 else nan.
+Definition eq_s1 : point := {| plon := 10; plat := 0; palt := -3 |}.
+Definition eq_e1 : point := {| plon := 10.5; plat := 0; palt := 40 |}.
+Definition eq_s2 : point := {| plon := 179.9; plat := 0; palt := 5 |}.
+Definition eq_e2 : point := {| plon := 180; plat := 0; palt := 5 |}.
+Lemma eq_run1 : exists l d, line_run eq_tan eq_cos eq_log 12 22 eq_s1 eq_e1 = Some (l, d, true) /\ (10 < List.length l)%nat /\
+  unstable_endpoint eq_tan eq_cos eq_log 12 22 eq_s1 = false /\ unstable_endpoint eq_tan eq_cos eq_log 12 22 eq_e1 = false.
+Proof. eexists. eexists. split; [vm_compute; reflexivity|]. split; [vm_compute; lia|]. split; vm_compute; reflexivity. Qed.
+Lemma eq_run2 : exists l d, line_run eq_tan eq_cos eq_log 14 3 eq_s2 eq_e2 = Some (l, d, true) /\
+  In (mk 14 0 8192 3 0) l /\ In (mk 14 16383 8192 3 0) l /\
+  unstable_endpoint eq_tan eq_cos eq_log 14 3 eq_s2 = false /\ unstable_endpoint eq_tan eq_cos eq_log 14 3 eq_e2 = false.
+Proof. eexists. eexists. split; [vm_compute; reflexivity|]. split; [cbn; tauto|]. split; [cbn; tauto|]. split; vm_compute; reflexivity. Qed.
 
 (* ---- D14, float level: SetLat is not idempotent on a stored value (no oracle involved) ---- *)
 Definition d14_lat : float := -0x1.430013c06793dp+6.          (* NewPoint(45.72633137829496, -80.75007534638786, 639.72).Lat() *)
